@@ -226,3 +226,254 @@ Proof.
   destruct (C13_model_domain true C13_mex.w0 C13_mex.pc) as [_ B].
   refine (conj _ (conj _ (conj _ (conj _ (B C13_mex.ops))))); vm_compute; reflexivity.
 Qed.
+
+(* ================================================================================================== *)
+(* added from Properties/C13_add.v (2026-10-01)  *)
+(* ================================================================================================== *)
+(* C13 (addition)  DictParser.parse (the workflow model Parse.parse_model) creates or replaces exactly one file: its
+   name, and the frame. *)
+From Coq Require Import String.   (* string literals of the examples; imported first so the list names win *)
+From Coq Require Import NArith ZArith List Bool.
+From DictIO Require Import Chars Str Value Scalar KeyPath SDict Reader Cli Parse MiscSpec CliProofs WorkflowProofs.
+Import ListNotations.
+
+Module C13_wf_ex.
+  Definition text := of_string "// top
+a { b { c 1; 7 seven; } x 2; }
+q 3;
+".
+  Definition src := of_string "/r/d.dict".
+  Definition prs := of_string "/r/parsed.d.dict".        (* an earlier parse result, itself a source below *)
+  Definition fs : fsys := [(src, FNative text); (prs, FNative (of_string "old 1;
+"))].
+  Definition scope := [SStr (of_string "a"); SStr (of_string "b")].
+  (* a key with a slash *)
+  Definition fs_slash : fsys := [(src, FNative (of_string "a/b { c 1; }
+"))].
+End C13_wf_ex.
+
+(* the target of a successful parse: in the directory of the source (textually: Path.parent of the source, a slash, the
+   derived name); the derived name is "parsed." + stem + "_" + the scope keys joined by "_" + extension, where the
+   extension is chosen by the output format (out_ext: none for cpp, ".foam" for foam, the source's suffix without
+   output format) and stem + source suffix = the source name with ONE leading "parsed." removed (strip_parsed) *)
+Theorem C13_parse_model_target : forall fs src inc app order com scope output c target txt k,
+  parse_model fs src inc app order com scope output c = Some (Ok (target, txt, k)) ->
+  target = dir_of src ++ [c_slash] ++ target_file_name (base_name src) (Some w_parsed) scope output /\
+  exists stem ending,
+    target = dir_of src ++ [c_slash] ++ w_parsed ++ [c_dot] ++ stem ++ scope_suffix scope ++ out_ext output ending /\
+    stem ++ ending = strip_parsed (base_name src).
+Proof. exact parse_model_target_full. Qed.
+Print Assumptions C13_parse_model_target.
+
+Example C13_parse_model_target_nonvacuous :
+  exists txt k,
+    parse_model C13_wf_ex.fs C13_wf_ex.src true false false true C13_wf_ex.scope (Some (of_string "foam")) 0 =
+      Some (Ok (of_string "/r/parsed.d_a_b.foam", txt, k)) /\
+    dir_of C13_wf_ex.src = of_string "/r" /\ base_name C13_wf_ex.src = of_string "d.dict" /\
+    scope_suffix C13_wf_ex.scope = of_string "_a_b" /\ out_ext (Some (of_string "foam")) (of_string ".dict") = of_string ".foam" /\
+    exists stem ending,
+      of_string "/r/parsed.d_a_b.foam" =
+        dir_of C13_wf_ex.src ++ [c_slash] ++ w_parsed ++ [c_dot] ++ stem ++ scope_suffix C13_wf_ex.scope
+          ++ out_ext (Some (of_string "foam")) ending /\
+      stem ++ ending = strip_parsed (base_name C13_wf_ex.src).
+Proof.
+  destruct (parse_model C13_wf_ex.fs C13_wf_ex.src true false false true C13_wf_ex.scope (Some (of_string "foam")) 0)
+    as [[[[t txt] k]|e]|] eqn:E; [|vm_compute in E; discriminate E|vm_compute in E; discriminate E].
+  assert (Et : t = of_string "/r/parsed.d_a_b.foam") by (vm_compute in E; injection E as <- _ _; reflexivity).
+  exists txt, k. rewrite <- Et. split; [reflexivity|].
+  refine (conj _ (conj _ (conj _ (conj _ (proj2 (C13_parse_model_target _ _ _ _ _ _ _ _ _ _ _ _ E)))))); vm_compute; reflexivity.
+Qed.
+
+(* the extension follows the output format (json / xml: outside the workflow model, parse_model = None) *)
+Theorem C13_parse_model_ext : forall fs src inc app order com scope c target txt k,
+  (parse_model fs src inc app order com scope (Some (of_string "foam")) c = Some (Ok (target, txt, k)) ->
+   exists base, target = base ++ of_string ".foam") /\
+  (parse_model fs src inc app order com scope (Some (of_string "cpp")) c = Some (Ok (target, txt, k)) ->
+   exists stem, target = dir_of src ++ [c_slash] ++ w_parsed ++ [c_dot] ++ stem ++ scope_suffix scope).
+Proof. exact parse_model_target_ext. Qed.
+Print Assumptions C13_parse_model_ext.
+
+Example C13_parse_model_ext_nonvacuous :
+  (exists txt k, parse_model C13_wf_ex.fs C13_wf_ex.src true false false true C13_wf_ex.scope (Some (of_string "foam")) 0 =
+                   Some (Ok (of_string "/r/parsed.d_a_b.foam", txt, k))) /\
+  (exists txt k, parse_model C13_wf_ex.fs C13_wf_ex.src true false false true C13_wf_ex.scope (Some (of_string "cpp")) 0 =
+                   Some (Ok (of_string "/r/parsed.d_a_b", txt, k))) /\
+  (exists txt k, parse_model C13_wf_ex.fs C13_wf_ex.src true false false true C13_wf_ex.scope None 0 =
+                   Some (Ok (of_string "/r/parsed.d_a_b.dict", txt, k))).
+Proof. split; [|split]; eexists; eexists; vm_compute; reflexivity. Qed.
+
+(* the prefix is applied once, for EVERY source name (C13_prefix_once speaks of dot-free names): without scope and
+   output format the target is "parsed." + the source name with one leading "parsed." removed; a name that does not
+   begin with "parsed." gets the prefix, one that does is its own target; deriving twice = deriving once *)
+Theorem C13_parse_model_prefix_once :
+  (forall name, let t := target_file_name name (Some w_parsed) [] None in
+     target_file_name t (Some w_parsed) [] None = t /\
+     (starts_with w_parsed_dot name = false -> t = w_parsed_dot ++ name) /\
+     (starts_with w_parsed_dot name = true -> t = name)) /\
+  (forall fs src inc app order com c target txt k,
+     parse_model fs src inc app order com [] None c = Some (Ok (target, txt, k)) ->
+     target = dir_of src ++ [c_slash] ++ w_parsed_dot ++ strip_parsed (base_name src)) /\
+  (* a source and its own parsed.* file have the same target *)
+  (forall fs src src' inc app order com c target txt k target' txt' k',
+     dir_of src' = dir_of src -> base_name src' = w_parsed_dot ++ base_name src ->
+     starts_with w_parsed_dot (base_name src) = false ->
+     parse_model fs src inc app order com [] None c = Some (Ok (target, txt, k)) ->
+     parse_model fs src' inc app order com [] None c = Some (Ok (target', txt', k')) ->
+     target' = target /\ target = dir_of src ++ [c_slash] ++ w_parsed_dot ++ base_name src).
+Proof. exact parse_model_prefix_once. Qed.
+Print Assumptions C13_parse_model_prefix_once.
+
+(* non-vacuity: /r/d.dict and /r/parsed.d.dict are both parsed to /r/parsed.d.dict *)
+Example C13_parse_model_prefix_once_nonvacuous :
+  dir_of C13_wf_ex.prs = dir_of C13_wf_ex.src /\ base_name C13_wf_ex.prs = w_parsed_dot ++ base_name C13_wf_ex.src /\
+  starts_with w_parsed_dot (base_name C13_wf_ex.src) = false /\
+  exists txt k txt' k',
+    parse_model C13_wf_ex.fs C13_wf_ex.src true false false true [] None 0 = Some (Ok (C13_wf_ex.prs, txt, k)) /\
+    parse_model C13_wf_ex.fs C13_wf_ex.prs true false false true [] None 0 = Some (Ok (C13_wf_ex.prs, txt', k')) /\
+    txt <> txt'.
+Proof.
+  assert (H1 : dir_of C13_wf_ex.prs = dir_of C13_wf_ex.src) by (vm_compute; reflexivity).
+  assert (H2 : base_name C13_wf_ex.prs = w_parsed_dot ++ base_name C13_wf_ex.src) by (vm_compute; reflexivity).
+  assert (H3 : starts_with w_parsed_dot (base_name C13_wf_ex.src) = false) by (vm_compute; reflexivity).
+  refine (conj H1 (conj H2 (conj H3 _))).
+  destruct (parse_model C13_wf_ex.fs C13_wf_ex.src true false false true [] None 0)
+    as [[[[t txt] k]|e]|] eqn:E; [|vm_compute in E; discriminate E|vm_compute in E; discriminate E].
+  destruct (parse_model C13_wf_ex.fs C13_wf_ex.prs true false false true [] None 0)
+    as [[[[t' txt'] k']|e]|] eqn:E'; [|vm_compute in E'; discriminate E'|vm_compute in E'; discriminate E'].
+  destruct (proj2 (proj2 C13_parse_model_prefix_once) _ _ _ _ _ _ _ _ _ _ _ _ _ _ H1 H2 H3 E E') as [A B].
+  assert (Bt : t = C13_wf_ex.prs) by (rewrite B; vm_compute; reflexivity).
+  exists txt, k, txt', k'. rewrite A, Bt. split; [reflexivity|split; [reflexivity|]].
+  vm_compute in E, E'. injection E as _ <- _. injection E' as _ <- _. discriminate.
+Qed.
+(* consequence worth knowing: parsing a parsed.* file REPLACES THAT SOURCE (target = source); "leaves the source
+   unchanged" holds exactly for paths other than the target (C13_parse_model_frame) *)
+Example C13_parse_model_source_is_target_finding :
+  exists txt k, parse_model C13_wf_ex.fs C13_wf_ex.prs true false false true [] None 0 = Some (Ok (C13_wf_ex.prs, txt, k)) /\
+                fs_lookup C13_wf_ex.prs C13_wf_ex.fs <> Some (FNative txt).
+Proof. eexists; eexists. split; [vm_compute; reflexivity|vm_compute; discriminate]. Qed.
+(* same directory and source kept, for EVERY scope (the key texts of the name have slash and backslash spelled as
+   underscores, repo fix 7af8903): Path.parent of the target is Path.parent of the source, Path.name of the target is
+   the derived name and begins with "parsed."; and when the source names a file (last component not empty, "." or
+   "..") that is not itself a parsed.* file, the target is another file (normalised paths differ) and the source keeps
+   its content through a successful parse *)
+Theorem C13_parse_model_same_dir : forall fs src inc app order com scope output c target txt k,
+  let r := parse_model fs src inc app order com scope output c in
+  r = Some (Ok (target, txt, k)) ->
+  (dir_of target = dir_of src /\
+   base_name target = target_file_name (base_name src) (Some w_parsed) scope output /\
+   starts_with w_parsed_dot (base_name target) = true) /\
+  (file_name_ok (base_name src) = true -> starts_with w_parsed_dot (base_name src) = false ->
+   norm_path target <> norm_path src /\
+   fs_lookup (norm_path src) (apply_parse fs r) = fs_lookup (norm_path src) fs).
+Proof. exact parse_model_same_dir_source_kept. Qed.
+Print Assumptions C13_parse_model_same_dir.
+
+Example C13_parse_model_same_dir_nonvacuous :
+  let r := parse_model C13_wf_ex.fs C13_wf_ex.src true true false true C13_wf_ex.scope (Some (of_string "foam")) 0 in
+  file_name_ok (base_name C13_wf_ex.src) = true /\
+  starts_with w_parsed_dot (base_name C13_wf_ex.src) = false /\
+  exists target txt k, r = Some (Ok (target, txt, k)) /\
+    dir_of target = dir_of C13_wf_ex.src /\ base_name target = of_string "parsed.d_a_b.foam" /\
+    norm_path target <> norm_path C13_wf_ex.src /\
+    fs_lookup (norm_path C13_wf_ex.src) (apply_parse C13_wf_ex.fs r) = Some (FNative C13_wf_ex.text) /\
+    apply_parse C13_wf_ex.fs r <> C13_wf_ex.fs.
+Proof.
+  intros r.
+  assert (H2 : file_name_ok (base_name C13_wf_ex.src) = true) by (vm_compute; reflexivity).
+  assert (H3 : starts_with w_parsed_dot (base_name C13_wf_ex.src) = false) by (vm_compute; reflexivity).
+  refine (conj H2 (conj H3 _)).
+  destruct r as [[[[t txt] k]|e]|] eqn:E; [|vm_compute in E; discriminate E|vm_compute in E; discriminate E].
+  destruct (C13_parse_model_same_dir _ _ _ _ _ _ _ _ _ _ _ _ E) as [(A & B & _) C].
+  destruct (C H2 H3) as [C1 C2]. cbv zeta in C2. fold r in C2. rewrite E in C2.
+  exists t, txt, k. split; [reflexivity|]. split; [exact A|]. split; [rewrite B; vm_compute; reflexivity|].
+  split; [exact C1|]. split; [rewrite C2; vm_compute; reflexivity|].
+  vm_compute in E. injection E as <- <- _. vm_compute. discriminate.
+Qed.
+
+(* the former finding (a scope key with a slash moved the target into a sub-directory) is repaired: the key a/b is
+   found in the dict as it is, and spelled a_b in the file name; the target stays in the directory of the source *)
+Example C13_parse_model_scope_slash_fixed :
+  exists txt k, parse_model C13_wf_ex.fs_slash C13_wf_ex.src true false false true [SStr (of_string "a/b")] None 0 =
+                  Some (Ok (of_string "/r/parsed.d_a_b.dict", txt, k)) /\
+                dir_of (of_string "/r/parsed.d_a_b.dict") = dir_of C13_wf_ex.src /\ dir_of C13_wf_ex.src = of_string "/r" /\
+                base_name (of_string "/r/parsed.d_a_b.dict") = of_string "parsed.d_a_b.dict".
+Proof.
+  destruct (parse_model C13_wf_ex.fs_slash C13_wf_ex.src true false false true [SStr (of_string "a/b")] None 0)
+    as [[[[t txt] k]|e]|] eqn:E; [|vm_compute in E; discriminate E|vm_compute in E; discriminate E].
+  destruct (C13_parse_model_same_dir _ _ _ _ _ _ _ _ _ _ _ _ E) as [(A & B & _) _].
+  assert (Et : t = of_string "/r/parsed.d_a_b.dict") by (vm_compute in E; injection E as <- _ _; reflexivity).
+  subst t. exists txt, k. split; [reflexivity|]. split; [exact A|]. split; [vm_compute; reflexivity|].
+  rewrite B. vm_compute. reflexivity.
+Qed.
+
+(* frame: parse_model is a function of (file tree, arguments, counter) into one (target, text) pair; the file tree after
+   the call (apply_parse: the normalised target holds the text) differs from the tree before at the target only; a
+   raising call (reader or writer, e.g. the existing target of an append cannot be parsed) changes nothing *)
+Theorem C13_parse_model_frame : forall fs src inc app order com scope output c,
+  let r := parse_model fs src inc app order com scope output c in
+  ((forall e, r = Some (Raise e) -> apply_parse fs r = fs) /\ (r = None -> apply_parse fs r = fs)) /\
+  (forall target txt k, r = Some (Ok (target, txt, k)) ->
+     fs_lookup (norm_path target) (apply_parse fs r) = Some (FNative txt) /\
+     (forall p, p <> norm_path target -> fs_lookup p (apply_parse fs r) = fs_lookup p fs) /\
+     (map fst (apply_parse fs r) = map fst fs \/
+      (fs_lookup (norm_path target) fs = None /\ map fst (apply_parse fs r) = map fst fs ++ [norm_path target]))).
+Proof. exact parse_model_frame. Qed.
+Print Assumptions C13_parse_model_frame.
+
+(* non-vacuity: an append onto the existing /r/parsed.d.dict replaces it and leaves the source alone; a scoped parse
+   creates /r/parsed.d_a_b.dict; a parse with a missing scope raises (sys.exit) and writes nothing *)
+Example C13_parse_model_frame_nonvacuous :
+  let r1 := parse_model C13_wf_ex.fs C13_wf_ex.src true true false true [] None 0 in
+  let r2 := parse_model C13_wf_ex.fs C13_wf_ex.src true false false true C13_wf_ex.scope None 0 in
+  let r3 := parse_model C13_wf_ex.fs C13_wf_ex.src true true false true [SStr (of_string "a"); SStr (of_string "x")] None 0 in
+  (exists txt k, r1 = Some (Ok (C13_wf_ex.prs, txt, k)) /\
+     fs_lookup C13_wf_ex.prs (apply_parse C13_wf_ex.fs r1) = Some (FNative txt) /\
+     fs_lookup C13_wf_ex.prs C13_wf_ex.fs <> Some (FNative txt) /\
+     fs_lookup C13_wf_ex.src (apply_parse C13_wf_ex.fs r1) = Some (FNative C13_wf_ex.text) /\
+     map fst (apply_parse C13_wf_ex.fs r1) = [C13_wf_ex.src; C13_wf_ex.prs]) /\
+  (exists txt k, r2 = Some (Ok (of_string "/r/parsed.d_a_b.dict", txt, k)) /\
+     map fst (apply_parse C13_wf_ex.fs r2) = [C13_wf_ex.src; C13_wf_ex.prs; of_string "/r/parsed.d_a_b.dict"]) /\
+  r3 = Some (Raise E_Exit) /\ apply_parse C13_wf_ex.fs r3 = C13_wf_ex.fs.
+Proof.
+  intros r1 r2 r3.
+  destruct (C13_parse_model_frame C13_wf_ex.fs C13_wf_ex.src true true false true [] None 0) as [_ F1].
+  destruct (C13_parse_model_frame C13_wf_ex.fs C13_wf_ex.src true true false true [SStr (of_string "a"); SStr (of_string "x")] None 0) as [[F3 _] _].
+  cbv zeta in F1, F3. fold r1 in F1. fold r3 in F3.
+  split; [|split; [|split]].
+  - destruct r1 as [[[[t txt] k]|e]|] eqn:E; [|vm_compute in E; discriminate E|vm_compute in E; discriminate E].
+    assert (Et : t = C13_wf_ex.prs) by (vm_compute in E; injection E as <- _ _; reflexivity). subst t.
+    destruct (F1 _ _ _ eq_refl) as (A & B & _).
+    assert (En : norm_path C13_wf_ex.prs = C13_wf_ex.prs) by (vm_compute; reflexivity). rewrite En in A, B.
+    exists txt, k. split; [reflexivity|split; [exact A|split; [|split]]].
+    + vm_compute in E. injection E as <- _. vm_compute. discriminate.
+    + rewrite B by discriminate. vm_compute. reflexivity.
+    + vm_compute in E. injection E as <- _. vm_compute. reflexivity.
+  - eexists; eexists. split; vm_compute; reflexivity.
+  - vm_compute. reflexivity.
+  - apply (F3 E_Exit). vm_compute. reflexivity.
+Qed.
+
+(* append and overwrite agree when the target does not exist yet *)
+Theorem C13_parse_model_append_fresh : forall fs src inc order com scope output c,
+  fs_lookup (norm_path (dir_of src ++ [c_slash] ++ target_file_name (base_name src) (Some w_parsed) scope output)) fs = None ->
+  parse_model fs src inc true order com scope output c = parse_model fs src inc false order com scope output c.
+Proof. exact parse_model_append_fresh. Qed.
+Print Assumptions C13_parse_model_append_fresh.
+
+Example C13_parse_model_append_fresh_nonvacuous :
+  fs_lookup (norm_path (dir_of C13_wf_ex.src ++ [c_slash] ++
+               target_file_name (base_name C13_wf_ex.src) (Some w_parsed) C13_wf_ex.scope None)) C13_wf_ex.fs = None /\
+  parse_model C13_wf_ex.fs C13_wf_ex.src true true false true C13_wf_ex.scope None 0 =
+  parse_model C13_wf_ex.fs C13_wf_ex.src true false false true C13_wf_ex.scope None 0 /\
+  (exists r, parse_model C13_wf_ex.fs C13_wf_ex.src true true false true C13_wf_ex.scope None 0 = Some (Ok r)) /\
+  (* with an existing target the two modes differ *)
+  parse_model C13_wf_ex.fs C13_wf_ex.src true true false true [] None 0 <>
+  parse_model C13_wf_ex.fs C13_wf_ex.src true false false true [] None 0.
+Proof.
+  assert (H : fs_lookup (norm_path (dir_of C13_wf_ex.src ++ [c_slash] ++
+               target_file_name (base_name C13_wf_ex.src) (Some w_parsed) C13_wf_ex.scope None)) C13_wf_ex.fs = None)
+    by (vm_compute; reflexivity).
+  refine (conj H (conj (C13_parse_model_append_fresh _ _ _ _ _ _ _ _ H) (conj _ _))).
+  - eexists. vm_compute. reflexivity.
+  - vm_compute. discriminate.
+Qed.
